@@ -11,15 +11,17 @@ from lib.tocoq import Ctor, Raw, Some, term, val
 
 PROP = "C14"
 PROPS_FILE = "props/C14.v"
-GEN: list[str] = []
+GEN: list[str] = ["gen_manifest"]
 CORRESPONDENCES = [
     "codec:str(int)/base64/get_value~model",
     "escape:json.dumps(str)~model",
-    "print:SnapshotMetadata.to_yaml~model",
-    "read:SnapshotMetadata.from_yaml~model",
-    "prefix:from_yaml-on-every-strict-prefix~model",
+    "print:SnapshotMetadata.to_yaml~generated",
+    "read:SnapshotMetadata.from_yaml~generated",
+    "prefix:from_yaml-on-every-strict-prefix~generated",
     "parse:json.loads~model",
+    "primitive:from_object/get_value/byte_range_tuple~generated",
 ]
+W_CODEC, W_ESC, W_PRINT, W_READ, W_PREFIX, W_PARSE, W_PRIM = CORRESPONDENCES
 RULE = ("manifests generated over all nine entry kinds (list, dict, OrderedDict with int/str/bool keys, the five primitive "
         "kinds, Tensor with/without byte_range, ShardedTensor, ChunkedTensor, DTensor with nested mesh, object); strings drawn "
         "from the enumerated code-point classes (0x00-0x9F, 0xD7FF-0xE000, 0x2028/9, 0xFEFF, 0xFFFE/F, 0x10000, 0x10FFFF, "
@@ -29,8 +31,19 @@ RULE = ("manifests generated over all nine entry kinds (list, dict, OrderedDict 
         "when the manifest has at least one entry or the text is a non-empty document; distinct by content hash.")
 TRUSTED = [
     "Coq 8.16.1 kernel and its vm_compute VM (no native_compute)",
-    "hand-written models coq/model/Codec.v, Json.v, ManifestCodec.v tied to the code by differential runs (this harness): "
-    "CPython's json encoder/decoder (C scanner), base64/binascii, struct and dataclasses.asdict are runtime, modelled not verified",
+    "translator/gen_manifest.py (Python ast -> Gallina data, fail closed, regenerated from torchsnapshot/manifest.py on every run: "
+    "every dataclass with its base, fields in source order, __init__ parameters/defaults/assignments and the `type` tag passed to "
+    "super().__init__, every from_yaml_obj body statement by statement, the if/elif dispatch chain and loader order of "
+    "SnapshotMetadata.from_yaml, the keyword arguments of the json.dumps call in to_yaml, the PrimitiveType enum, the expression "
+    "forms of PrimitiveEntry.get_value/_serialize/from_object, TensorEntry.byte_range_tuple) and the interpreter that gives this "
+    "data its meaning, coq/model/PyManifest.v (constructor call with parameter binding, dataclasses.asdict, from_yaml_obj "
+    "statements, json.dumps options, and the typed view of entry objects through class / keyword / attribute names); both are "
+    "also exercised on every run by differential runs of the generated terms against the real classes (this harness)",
+    "hand-written models of CPython behaviour coq/model/Codec.v (str(int)/int(str), base64, struct 'd' as 8 opaque bytes) and "
+    "Json.v (json.dumps string escaping and indent=2 layout, json.loads scanner), tied to CPython by differential runs (this "
+    "harness): CPython's json encoder/decoder (C scanner), base64/binascii, struct and dataclasses are runtime, modelled not "
+    "verified; coq/model/ManifestCodec.v is now only the specification the generated terms are proved equal to "
+    "(proofs/ManifestInst.v)",
     "the legacy YAML fallback of SnapshotMetadata.from_yaml (libyaml CSafeLoader) is an uninterpreted Section variable "
     "`yaml_oracle`; the round-trip theorems never reach it; prefix rejection assumes it rejects every strict prefix of a "
     "printed document (hypothesis yaml_rejects) - tested here on every sampled prefix",
@@ -49,11 +62,31 @@ ASSUMPTIONS = [
     "yaml_rejects: the YAML fallback rejects every strict prefix of a printed metadata document",
     "JSON numbers with fraction/exponent, NaN and Infinity never occur in metadata; the model parser rejects them "
     "(cases where the real json.loads yields a float are excluded from the read correspondence and counted)",
-    "the reader does not type-check fields; the model is typed (cases where the real reader builds an ill-typed entry "
-    "are excluded from the read correspondence and counted)",
+    "the reader does not type-check fields and neither does the generated reader (dynamically typed: documents on which the "
+    "real reader builds an ill-typed entry are part of the read correspondence); the theorems are stated through the typed view "
+    "of model/PyManifest.v (class names, constructor keyword names, attribute names of the entry classes)",
+    "the translated from_yaml_obj bodies are run on dicts: on a list / str / number every path of the translated bodies raises "
+    "in Python (TypeError on x['k'], del x['k'], ** x), which the interpreter reports as one 'raises' outcome",
+    "ShardedTensorEntry.get_tensor_shape is not part of the serialization and is skipped by name; any other method, decorator, "
+    "field default, top-level statement or statement form that gen_manifest.py does not recognise breaks the obligation "
+    "translate:gen_manifest",
 ]
 
 IMPORTS = "From TS Require Import model.Codec model.Json model.ManifestCodec.\n"
+USE_GEN = False
+IMPORTS_GEN = "From TS Require Import model.Codec model.Json model.ManifestCodec model.PyManifest model.ManifestGenObs.\n"
+
+
+def gen_available() -> bool:
+    """False when translator/gen_manifest.py failed closed on this tree (gen/ManifestGen.v is then a stub that does not
+    compile and any ManifestGenObs.vo lying around is stale): the hand-written model is evaluated instead, so that the
+    evidence still shows where code and model differ; the broken translate obligation decides the run anyway."""
+    import os
+    try:
+        text = open(os.path.join(coqrun.COQ, "gen", "ManifestGen.v")).read()
+    except OSError:
+        return False
+    return "Translator_failed" not in text and os.path.exists(os.path.join(coqrun.COQ, "model", "ManifestGenObs.vo"))
 REPORT_ADJACENT_PAIR = True
 SIG_PAIR = "C14:json-merges-adjacent-hi-lo-surrogate-code-points"
 
@@ -747,7 +780,7 @@ def check_codec(ctx: Ctx, res: Result, M):
         [10**k for k in range(0, 41, 3)] + [-(10**k) + 1 for k in range(1, 41, 5)]
     cases = [(term(z), val(str(z))) for z in ints]
     bad, errs = coqrun.run_cases("C14_int", IMPORTS, "obs_str_of_int", cases)
-    add_mism(res, "codec:str(int)/base64/get_value~model", errs, bad, lambda i: {"int": str(ints[i])})
+    add_mism(res, W_CODEC, errs, bad, lambda i: {"int": str(ints[i])})
     for z in ints:
         oracle_from_object(z, M, res)
         res.count("codec.int_digits", len(str(abs(z))) // 10 * 10)
@@ -755,7 +788,7 @@ def check_codec(ctx: Ctx, res: Result, M):
         [bytes(rng.randrange(256) for _ in range(rng.choice([1, 2, 3, 4, 5, 8, 9, 31]))) for _ in range(ctx.n(30, 300))]
     cases = [(term(list(b)), val([base64.b64encode(b).decode(), [list(b)]])) for b in blobs]
     bad, errs = coqrun.run_cases("C14_b64", IMPORTS, "obs_b64", cases)
-    add_mism(res, "codec:str(int)/base64/get_value~model", errs, bad, lambda i: {"bytes": list(blobs[i])})
+    add_mism(res, W_CODEC, errs, bad, lambda i: {"bytes": list(blobs[i])})
     for b in blobs:
         oracle_from_object(b, M, res)
         res.count("codec.bytes_len_mod3", len(b) % 3)
@@ -768,13 +801,14 @@ def check_codec(ctx: Ctx, res: Result, M):
         g = e.get_value()
         tag = {"int": 0, "str": 1, "bool": 2, "bytes": 3, "float": 4}[e.type]
         payload = (list(bits_of_float(g)) if e.type == "float" else list(g) if e.type == "bytes" else g)
-        cases.append((f"({PK[e.type]}, {term(e.serialized_value)})", val([tag, payload])))
+        cases.append((f"({term(e.type)}, {term(e.serialized_value)})" if USE_GEN else f"({PK[e.type]}, {term(e.serialized_value)})",
+                      val([tag, payload])))
         if isinstance(o, float):
             res.count("codec.float_class", float_class(struct.unpack("<Q", bits_of_float(o))[0]))
             oracle_from_object(o, M, res)
         res.case({"kind": "from_object", "type": e.type, "sv": cps(e.serialized_value)[:40]}, True)
-    bad, errs = coqrun.run_cases("C14_gv", IMPORTS, "obs_get_value", cases)
-    add_mism(res, "codec:str(int)/base64/get_value~model", errs, bad, lambda i: {"get_value": repr(objs[i])[:200]})
+    bad, errs = coqrun.run_cases("C14_gv", IMPORTS_GEN if USE_GEN else IMPORTS, "obs_get_value_gen" if USE_GEN else "obs_get_value", cases)
+    add_mism(res, W_CODEC, errs, bad, lambda i: {"get_value": repr(objs[i])[:200]})
     res.traces_validated += len(ints) + len(blobs) + len(objs)
 
 
@@ -787,7 +821,7 @@ def check_escape(ctx: Ctx, res: Result):
     strs += [chr(0xD800) + chr(0xDC00), chr(0xDC00) + chr(0xD800), chr(0xDBFF) + chr(0xDFFF) + chr(0xDBFF)]   # printing is total
     cases = [(term(s), val(json.dumps(s))) for s in strs]
     bad, errs = coqrun.run_cases("C14_esc", IMPORTS, "obs_quote", cases)
-    add_mism(res, "escape:json.dumps(str)~model", errs, bad, lambda i: {"str": cps(strs[i])})
+    add_mism(res, W_ESC, errs, bad, lambda i: {"str": cps(strs[i])})
     # string literals read back by json.loads (well-formed and damaged)
     lits = [json.dumps(s) for s in strs]
     extra = ['"\\ud800\\udc00"', '"\\uD800\\uDC00"', '"\\ud800\\u0041"', '"\\ud800\\ud800\\udc00"', '"\\udc00\\ud800"', '"\\ud800"',
@@ -811,12 +845,14 @@ def check_escape(ctx: Ctx, res: Result):
         cases.append((term(t), val(exp)))
         res.count("escape.literal", "accepted" if exp is not None else "rejected")
     bad, errs = coqrun.run_cases("C14_unesc", IMPORTS, "obs_unescape", cases)
-    add_mism(res, "escape:json.dumps(str)~model", errs, bad, lambda i: {"literal": cps(lits[i])})
+    add_mism(res, W_ESC, errs, bad, lambda i: {"literal": cps(lits[i])})
     res.traces_validated += len(strs) + len(lits)
 
 
-def read_case(s: str, M, res: Result):
-    """expected observation of obs_read on text s, or None when the case is outside the model"""
+def read_case(s: str, M, res: Result, dyn: bool = False):
+    """expected observation of obs_read / obs_read_gen on text s, or None when the case is outside the model.
+    dyn: the generated reader is dynamically typed like Python, so ill-typed documents stay in; the hand-written typed
+    model (used only when the translator failed) rejects them and they are left out."""
     code, md, note, j = classify_read(s, M)
     if code == 0:
         res.count("read.outcome", "json-rejects" + ("(yaml accepts)" if md is not None else ""))
@@ -826,7 +862,7 @@ def read_case(s: str, M, res: Result):
             try:
                 yaml.load(s, Loader=M.Loader)
             except Exception:
-                res.mismatches.append(Mismatch("read:SnapshotMetadata.from_yaml~model", {"doc": cps(s)[:400]},
+                res.mismatches.append(Mismatch(W_READ, {"doc": cps(s)[:400]},
                                                "accepted although json.loads and the YAML loader both reject the text", "rejected"))
         return [0]
     if has_float(j):
@@ -836,10 +872,16 @@ def read_case(s: str, M, res: Result):
         res.count("read.outcome", "decode-raises:" + note)
         return [1]
     if not well_typed(md, M):
-        res.count("read.outcome", "outside-model:ill-typed")
-        return None
-    res.count("read.outcome", "accepted")
-    return [2, md.to_yaml()]
+        if not dyn:
+            res.count("read.outcome", "outside-model:ill-typed")
+            return None
+        res.count("read.outcome", "accepted:ill-typed")
+    else:
+        res.count("read.outcome", "accepted")
+    try:
+        return [2, md.to_yaml()]
+    except Exception:
+        return [3]
 
 
 def check_docs(ctx: Ctx, res: Result, M):
@@ -859,8 +901,8 @@ def check_docs(ctx: Ctx, res: Result, M):
         res.count("doc.size", "none" if doc is None else len(doc) // 500 * 500)
         if doc is None:
             continue
-        print_cases.append((md_term(md), val(doc)))
-        exp = read_case(doc, M, res)
+        print_cases.append((md_term(md), val([doc] if USE_GEN else doc)))
+        exp = read_case(doc, M, res, USE_GEN)
         if exp is not None:
             read_cases.append((term(doc), val(exp)))
             read_docs.append(doc)
@@ -871,12 +913,13 @@ def check_docs(ctx: Ctx, res: Result, M):
         doc = oracle_roundtrip(md, M, res)
         if doc is None:
             continue
-        print_cases.append((md_term(md), val(doc)))
-        exp = read_case(doc, M, res)
+        print_cases.append((md_term(md), val([doc] if USE_GEN else doc)))
+        exp = read_case(doc, M, res, USE_GEN)
         read_cases.append((term(doc), val(exp)))
         read_docs.append(doc)
-    bad, errs = coqrun.run_cases("C14_print", IMPORTS, "obs_to_yaml", print_cases, shard=40)
-    add_mism(res, "print:SnapshotMetadata.to_yaml~model", errs, bad, lambda i: {"doc": print_cases[i][1][:300]})
+    bad, errs = coqrun.run_cases("C14_print", IMPORTS_GEN if USE_GEN else IMPORTS, "obs_to_yaml_gen" if USE_GEN else "obs_to_yaml",
+                                 print_cases, shard=40)
+    add_mism(res, W_PRINT, errs, bad, lambda i: {"doc": print_cases[i][1][:300]})
     # malformed stream
     base = [d for d in read_docs if len(d) < 900]
     for _ in range(ctx.n(400, 5000)):
@@ -884,7 +927,7 @@ def check_docs(ctx: Ctx, res: Result, M):
         m = mutate(rng, d)
         if rng.random() < 0.15:
             m = mutate(rng, m)
-        exp = read_case(m, M, res)
+        exp = read_case(m, M, res, USE_GEN)
         res.case({"kind": "malformed", "doc": cps(m)[:120]}, len(m) > 0)
         if exp is not None:
             read_cases.append((term(m), val(exp)))
@@ -903,13 +946,46 @@ def check_docs(ctx: Ctx, res: Result, M):
               '{"manifest": {}, "world_size": 1, "version": "v"}', '\n{"version": "v", "world_size": 1, "manifest": {}}\n\t ',
               '{"version": "v", "world_size": 1, "manifest": {}} x', '{"version": "v", "world_size": 1e0, "manifest": {}}',
               '{"version": "v", "world_size": -0, "manifest": {}}', '{"version": "v", "world_size": 01, "manifest": {}}',
-              '{"version": "v", "world_size": NaN, "manifest": {}}', '{"version": "v", "world_size": 1, "manifest": {},}']:
-        exp = read_case(m, M, res)
+              '{"version": "v", "world_size": NaN, "manifest": {}}', '{"version": "v", "world_size": 1, "manifest": {},}',
+              # documents the real (untyped) reader accepts or rejects for dynamic reasons
+              '{"version": 1, "world_size": "x", "manifest": {}}', '{"version": null, "world_size": [1, {"a": true}], "manifest": {}}',
+              '{"version": "v", "world_size": 1, "manifest": {"a": {"type": "Tensor", "location": 5, "serializer": null, "dtype": [], '
+              '"shape": "s", "replicated": 0}}}',
+              '{"version": "v", "world_size": 1, "manifest": {"a": {"type": "ShardedTensor", "shards": {}}}}',
+              '{"version": "v", "world_size": 1, "manifest": {"a": {"type": "ShardedTensor", "shards": ""}}}',
+              '{"version": "v", "world_size": 1, "manifest": {"a": {"type": "ShardedTensor", "shards": "ab"}}}',
+              '{"version": "v", "world_size": 1, "manifest": {"a": {"type": "ShardedTensor", "shards": {"k": 1}}}}',
+              '{"version": "v", "world_size": 1, "manifest": {"a": {"type": "ShardedTensor", "shards": 3}}}',
+              '{"version": "v", "world_size": 1, "manifest": {"a": {"type": "ChunkedTensor", "dtype": 1, "shape": 2, "chunks": [], "replicated": 3}}}',
+              '{"version": "v", "world_size": 1, "manifest": {"a": {"type": "DTensor", "shards": [{"offsets": 1, "sizes": "z", "tensor": '
+              '{"location": "l", "serializer": "s", "dtype": "d", "shape": [], "replicated": true}}], "mesh": "m", "dim_map": null}}}',
+              '{"version": "v", "world_size": 1, "manifest": {"a": {"type": "DTensor", "shards": [{"offsets": 1, "sizes": 2, "tensor": '
+              '{"location": "l", "serializer": "s", "dtype": "d", "shape": [], "replicated": true}, "x": 1}], "mesh": 0, "dim_map": []}}}',
+              '{"version": "v", "world_size": 1, "manifest": {"a": {"type": "ShardedTensor", "shards": [{"offsets": [], "sizes": [], "tensor": "type"}]}}}',
+              '{"version": "v", "world_size": 1, "manifest": {"a": {"type": "ShardedTensor", "shards": [{"offsets": [], "sizes": [], "tensor": []}]}}}',
+              '{"version": "v", "world_size": 1, "manifest": {"a": {"type": "int", "serialized_value": 5, "replicated": null, "readable": 1}}}',
+              '{"version": "v", "world_size": 1, "manifest": {"a": {"type": "int", "serialized_value": "5", "replicated": false, "readable": null, '
+              '"readable_value": "five"}}}',
+              '{"version": "v", "world_size": 1, "manifest": {"a": {"type": "float", "serialized_value": "5", "replicated": false, "readable_value": "x"}}}',
+              '{"version": "v", "world_size": 1, "manifest": {"a": {"type": ["list"]}, "b": {"type": null}, "c": {"type": {"list": 1}}, "d": {"type": "list"}}}',
+              '{"version": "v", "world_size": 1, "manifest": {"a": {"type": "List"}, "b": {"type": "list "}, "c": {"type": ""}}}',
+              '{"version": "v", "world_size": 1, "manifest": {"a": "type"}}', '{"version": "v", "world_size": 1, "manifest": {"a": ["type"]}}',
+              '{"version": "v", "world_size": 1, "manifest": {"a": null}}', '{"version": "v", "world_size": 1, "manifest": "type"}',
+              '{"version": "v", "world_size": 1, "manifest": null}', '["version", "world_size", "manifest"]', '"manifest"',
+              '{"version": "v", "world_size": 1, "manifest": {"a": {"type": "object", "location": "l", "serializer": "s", "obj_type": "o"}}}',
+              '{"version": "v", "world_size": 1, "manifest": {"a": {"type": "object", "location": "l", "serializer": "s", "obj_type": "o", '
+              '"replicated": true, "byte_range": null}}}',
+              '{"version": "v", "world_size": 1, "manifest": {"a": {"type": "dict", "keys": "abc"}, "b": {"type": "OrderedDict", "keys": null}}}',
+              '{"version": "v", "world_size": 1, "manifest": {"a": {"type": "dict"}}}',
+              '{"version": "v", "world_size": 1, "manifest": {"a": {"type": "Tensor", "location": "l", "serializer": "s", "dtype": "d", '
+              '"shape": [1], "replicated": true, "byte_range": [1]}}}']:
+        exp = read_case(m, M, res, USE_GEN)
         if exp is not None:
             read_cases.append((term(m), val(exp)))
             read_docs.append(m)
-    bad, errs = coqrun.run_cases("C14_read", IMPORTS, "obs_read", read_cases, shard=40)
-    add_mism(res, "read:SnapshotMetadata.from_yaml~model", errs, bad,
+    bad, errs = coqrun.run_cases("C14_read", IMPORTS_GEN if USE_GEN else IMPORTS, "obs_read_gen" if USE_GEN else "obs_read",
+                                 read_cases, shard=40)
+    add_mism(res, W_READ, errs, bad,
              lambda i: {"doc": cps(read_docs[i])[:400], "impl": read_cases[i][1][:200]})
     res.traces_validated += len(print_cases) + len(read_cases)
     return mds
@@ -929,7 +1005,7 @@ def check_prefixes(ctx: Ctx, res: Result, M, mds):
         oracle_prefixes(md, M, res)
         exp = []
         for k in range(len(doc)):
-            e = read_case(doc[:k], M, res)
+            e = read_case(doc[:k], M, res, USE_GEN)
             exp.append(e if e is not None else [0])
         cases.append((term(doc), val(exp)))
         res.case({"kind": "prefixes", "chars": len(doc), "entries": kinds_of(md)}, True)
@@ -941,8 +1017,75 @@ def check_prefixes(ctx: Ctx, res: Result, M, mds):
         if len(d) <= 3000:
             oracle_prefixes(md, M, res)
             res.traces_validated += len(d)
-    bad, errs = coqrun.run_cases("C14_prefix", IMPORTS, "obs_prefixes", cases, shard=2)
-    add_mism(res, "prefix:from_yaml-on-every-strict-prefix~model", errs, bad, lambda i: {"doc": cps(chosen[i][1])})
+    bad, errs = coqrun.run_cases("C14_prefix", IMPORTS_GEN if USE_GEN else IMPORTS, "obs_prefixes_gen" if USE_GEN else "obs_prefixes",
+                                 cases, shard=2)
+    add_mism(res, W_PREFIX, errs, bad, lambda i: {"doc": cps(chosen[i][1])})
+
+
+def pvalue_term(o) -> str:
+    if isinstance(o, bool):
+        return term(Ctor("VBool", o))
+    if isinstance(o, int):
+        return term(Ctor("VInt", o))
+    if isinstance(o, str):
+        return term(Ctor("VStr", o))
+    if isinstance(o, bytes):
+        return term(Ctor("VBytes", list(o)))
+    if isinstance(o, float):
+        return term(Ctor("VFloat", list(bits_of_float(o))))
+    raise TypeError(type(o))
+
+
+def check_primitive(ctx: Ctx, res: Result, M):
+    """PrimitiveEntry.from_object / get_value and TensorEntry.byte_range_tuple of the real classes against the generated
+    chains (g_from_object, g_get_value, g_byte_range_tuple)"""
+    rng = ctx.rng
+    # from_object: the entry built (type, serialized_value, replicated, readable)
+    objs = ([gen_int(rng) for _ in range(ctx.n(15, 150))] + [True, False, "", b"", 0, -1] + [gen_str(rng, 8) for _ in range(ctx.n(15, 150))] +
+            [bytes(rng.randrange(256) for _ in range(rng.choice([1, 2, 3, 4, 7, 16]))) for _ in range(ctx.n(10, 100))] +
+            [float_of_bits(b) for b in FLOAT_BITS] + [float_of_bits(rng.getrandbits(64)) for _ in range(ctx.n(10, 100))])
+    cases = []
+    for o in objs:
+        e = M.PrimitiveEntry.from_object(o)
+        cases.append((f"({pvalue_term(o)}, {term(e.readable or '')})",
+                      val([e.type, e.serialized_value, e.replicated, None if e.readable is None else [e.readable]])))
+        res.count("primitive.from_object", e.type)
+    bad, errs = coqrun.run_cases("C14_fo", IMPORTS_GEN, "obs_from_object_gen", cases)
+    add_mism(res, W_PRIM, errs, bad, lambda i: {"from_object": repr(objs[i])[:200], "impl": cases[i][1][:200]})
+    # get_value on arbitrary (type, serialized_value) pairs: unsupported type names and malformed values raise
+    pairs = [("int", "12"), ("int", "-0"), ("int", "+7"), ("int", ""), ("int", "-"), ("int", "12a"), ("int", "0x10"), ("int", "1.0"),
+             ("bool", "True"), ("bool", "False"), ("bool", "true"), ("bool", ""), ("bool", "1"), ("bool", "TRUE"), ("bool", "Falsee"),
+             ("str", ""), ("str", "True"), ("str", "\ud800x"), ("bytes", ""), ("bytes", "AA=="), ("bytes", "AAA="), ("bytes", "AAAA"),
+             ("float", "AAAAAAAA8D8="), ("float", "AAAA"), ("float", ""), ("float", "AAAAAAAAAAAAAAAA"),
+             ("Int", "1"), ("", "1"), ("complex", "1"), ("list", "1"), ("Tensor", "1"), ("floa", "AAAAAAAA8D8="), ("float ", "AAAAAAAA8D8="),
+             ("NoneType", "None")]
+    cases = []
+    for ty, sv in pairs:
+        e = M.PrimitiveEntry(ty, sv, False)
+        try:
+            g = e.get_value()
+            tag = {int: 0, str: 1, bool: 2, bytes: 3, float: 4}[type(g)]
+            exp = [tag, list(bits_of_float(g)) if tag == 4 else list(g) if tag == 3 else g]
+        except Exception:
+            exp = None
+        cases.append((f"({term(ty)}, {term(sv)})", val(exp) if exp is not None else "(VL [])"))
+        res.count("primitive.get_value", "raises" if exp is None else ty)
+    bad, errs = coqrun.run_cases("C14_gv2", IMPORTS_GEN, "obs_get_value_gen", cases)
+    add_mism(res, W_PRIM, errs, bad, lambda i: {"get_value": list(pairs[i]), "impl": cases[i][1][:200]})
+    # byte_range_tuple
+    brs = [None, [0, 24], [5, 5], [2**40, 2**41], [1, 2, 3], [7], []]
+    cases = []
+    for br in brs:
+        te = M.TensorEntry("l", "s", "d", [], False, br)
+        try:
+            r = te.byte_range_tuple
+            exp = [1] if r is None else [2, r[0], r[1]]
+        except Exception:
+            exp = [0]
+        cases.append((term(None if br is None else Some(br)), val(exp)))
+    bad, errs = coqrun.run_cases("C14_brt", IMPORTS_GEN, "obs_byte_range_tuple_gen", cases, in_type="option (list Z)")
+    add_mism(res, W_PRIM, errs, bad, lambda i: {"byte_range": brs[i]})
+    res.traces_validated += len(objs) + len(pairs) + len(brs)
 
 
 def gen_json(rng, depth=0):
@@ -983,18 +1126,25 @@ def check_parse(ctx: Ctx, res: Result):
         cases.append((term(t), val(exp)))
         kept.append(t)
     bad, errs = coqrun.run_cases("C14_parse", IMPORTS, "obs_parse", cases, shard=100)
-    add_mism(res, "parse:json.loads~model", errs, bad, lambda i: {"text": cps(kept[i])[:300], "impl": cases[i][1][:200]})
+    add_mism(res, W_PARSE, errs, bad, lambda i: {"text": cps(kept[i])[:300], "impl": cases[i][1][:200]})
     res.traces_validated += len(cases)
 
 
 def correspond(ctx: Ctx) -> Result:
+    global USE_GEN
     import torchsnapshot.manifest as M
     res = Result(rule=RULE)
+    USE_GEN = gen_available()
+    res.notes.append("model side of print/read/prefix/primitive: " + (
+        "the terms generated from manifest.py (gen/ManifestGen.v through model/PyManifest.v)" if USE_GEN else
+        "HAND-WRITTEN model only: translator/gen_manifest.py failed closed on this tree"))
     check_codec(ctx, res, M)
     check_escape(ctx, res)
     mds = check_docs(ctx, res, M)
     check_prefixes(ctx, res, M, mds)
     check_parse(ctx, res)
+    if USE_GEN:
+        check_primitive(ctx, res, M)
     return res
 
 
